@@ -139,9 +139,23 @@ def build_instance(inst: dict, name: str | None = None):
     from moptipyapps.binpacking2d.instance import Instance
     if "resource" in inst:
         return Instance.from_resource(inst["resource"])
-    return Instance(name or inst.get("name", "sim"), int(inst["W"]),
-                    int(inst["H"]),
-                    [[int(v) for v in row] for row in inst["items"]])
+    rows = [[int(v) for v in row] for row in inst["items"]]
+    nm = name or inst.get("name", "sim")
+    caller = inst.get("caller")
+    if caller:
+        # the caller hands over an array of its own - possibly already of the
+        # type the instance stores - and re-uses that buffer afterwards
+        import numpy as np
+        probe = Instance(nm, int(inst["W"]), int(inst["H"]), rows)
+        dt = probe.dtype if caller["src"] == "auto" else np.int64
+        src = np.array(rows, dtype=dt)
+        out = Instance(nm, int(inst["W"]), int(inst["H"]), src)
+        if caller["reuse"] == "scale":
+            src *= 3
+        else:
+            src.fill(0)
+        return out
+    return Instance(nm, int(inst["W"]), int(inst["H"]), rows)
 
 
 def resolve_items(inst: dict) -> list:
